@@ -127,3 +127,21 @@ def conversion_sign(kb, what):
 
 # rule lowering the call for kernels whose destination type is `const struct ValueType *dst`
 CONVERSION_SIGN_CALL = (r'\b(?:ValueFlow::)?getConversionSign\(\*dst, settings\)', 'getConversionSign(dst->type, dst->sign, g_default_sign)', 0, 1)
+
+
+def cast_value_int(kb, what):
+    """C text of the integer block of ValueFlow::castValue (lib/vf_common.cpp; its own contract is K04's):
+    `static bigint castValue_int(bigint v_in, enum Sign sign, int bit)`.  Returns (text, rules fired)."""
+    from vlib.kernel import located_rules
+    mb = re.search(r'const\s+int\s+MathLib::bigint_bits\s*=\s*(\d+)\s*;', extract.read("lib/mathlib.cpp"))
+    if not mb:
+        raise extract.ExtractError("MathLib::bigint_bits definition not found")
+    reg = extract.locate_region("lib/vf_common.cpp", r'^\s*Value\s+castValue\s*\(', r'if\s*\(\s*bit\s*<\s*MathLib::bigint_bits\s*\)', r'return\s+value\s*;', include_end=False)
+    kb.add_located("ValueFlow::castValue [integer truncation region]", reg, "region")
+    tc, k = located_rules(reg, VT_RULES + [
+        (r'\bvalue\.intvalue\b', '(*intvalue_p)', 3, 3),
+        (r'\bMathLib::bigint_bits\b', 'BIGINT_BITS', 1, 1),
+    ], what + ".castValue")
+    text = ("#ifndef BIGINT_BITS\n#define BIGINT_BITS %s\n#endif\nstatic bigint castValue_int(bigint v_in, const enum Sign sign, int bit)\n{\n    bigint v_store = v_in; bigint *intvalue_p = &v_store;\n"
+            "    __CPROVER_assert(bit >= 1, \"castValue: bit >= 1 (shift by bit - 1)\");\n%s\n    return v_store;\n}\n" % (mb.group(1), extract.strip_comments(tc)))
+    return text, k
